@@ -246,6 +246,7 @@ def run_one(ch, env):
         import shutil
         shutil.rmtree(wdir, ignore_errors=True)
 
+    common.draw_progress(ch, res)
     sim = Sim(ch, step_cap=80000)
     sim.rootdir = d
     sim.write_yields = (2, 1, 0)[ch.draw(3, kind="write_yields")]
@@ -258,16 +259,16 @@ def run_one(ch, env):
         if via_builder:
             # the Builder route used by the command-line tools: is_planet selects the coordinate system
             from toasty.builder import Builder
-            kw = {"parallel": workers}
+            kw = dict({"parallel": workers}, **common.pkw())
             if update:
                 rejects = cfg.rejects
                 kw["tile_filter"] = lambda t: t.pos not in rejects
             Builder(pio).toast_base(sampler, depth, is_planet=(coordsys == ToastCoordinateSystem.PLANETARY), **kw)
         elif update:
             rejects = cfg.rejects
-            ttoast.sample_layer_filtered(pio, lambda t: t.pos not in rejects, sampler, depth, coordsys=coordsys, parallel=workers)
+            ttoast.sample_layer_filtered(pio, lambda t: t.pos not in rejects, sampler, depth, coordsys=coordsys, parallel=workers, **common.pkw())
         else:
-            ttoast.sample_layer(pio, sampler, depth, coordsys=coordsys, format=override, parallel=workers)
+            ttoast.sample_layer(pio, sampler, depth, coordsys=coordsys, format=override, parallel=workers, **common.pkw())
 
     res["config"]["via_builder"] = via_builder
     res["probes"]["via_builder"] = int(via_builder)
